@@ -78,8 +78,11 @@ def enc_query(q):
     js = '()'
     if j:
         kk = {'inner': 0, 'left': 1, 'strict': 2}[j['kind']]
-        js = '((%d (%s) (%s)))' % (kk, ' '.join('()' if x is None else '(%d)' % x for x in j['lhs']),
-                                   ' '.join('()' if x is None else '(%d)' % x for x in j['rhs']))
+        # 'hw' = number of names in the header of the join table (absent / None = no join header): after build() the engines raise
+        # max_record_len to it, so LEFT JOIN's all-None record has one field per join column (fix c71773a, D27; Join.widen)
+        js = '((%d (%s) (%s)%s))' % (kk, ' '.join('()' if x is None else '(%d)' % x for x in j['lhs']),
+                                     ' '.join('()' if x is None else '(%d)' % x for x in j['rhs']),
+                                     '' if j.get('hw') is None else ' (%d)' % j['hw'])
     g = q.get('group')
     gs = '()' if g is None else '((%s))' % ' '.join(enc_expr(e) for e in g)
     o = q.get('order')
